@@ -256,14 +256,220 @@ class EvaluateFull(Contract):
         return Contract.on_raise(self, it, ctx, exc, st)
 
 
-def add_c01(rep, pv, it):
-    it.loop_specs.clear()
-    it.contracts.clear()
-    pv.run_contract(EvaluateFull())
+def _prepare(it):
     it.loop_specs.clear()
     it.contracts.clear()
     it.fold_for = None
 
 
+def add_c01(rep, pv, it):
+    """both evaluation loops; VCs generated in forked children (35 s and 15 s of single-threaded symbolic execution)"""
+    pv.start_child(EvaluateFull, _prepare)
+    pv.start_child(lambda: EvaluateCircuit(), _prepare)
+
+
 def add_c15(rep, pv, it):
     pass
+
+
+# ================================================================== evaluate_circuit (explicit stack) =========
+def stack_view(it, q):
+    """(n, elem) of the work list: a concrete python list before the first cut loop, an AbsStack afterwards"""
+    from ..pyvc.values import VList
+    if isinstance(q, CM.AbsStack):
+        return q.n, q.elem
+    if isinstance(q, VList):
+        items = [it.label_term(x) for x in q.items]
+
+        def elem(i, items=items):
+            r = items[-1] if items else z3.Const('nolabel', LabelSort)
+            for j in range(len(items) - 2, -1, -1):
+                r = z3.If(i == j, items[j], r)
+            return r
+        return z3.IntVal(len(items)), elem
+    raise Unsupported('work list of type ' + type(q).__name__)
+
+
+class QSpec:
+    """havoc+invariant loop specs over env['queue_'] / env['assignment_dict'] with quantified assumptions"""
+
+    def fresh_stack(self, it, env):
+        Ghostn[0] += 1
+        e = z3.Function(f'stk!{Ghostn[0]}', I, LabelSort)
+        n = it.ctx.fresh(I, 'stkn')
+        it.ctx.assume(n >= 0)
+        env['queue_'] = CM.AbsStack(n, lambda i: e(i))
+
+    def inv(self, it, env, k):
+        ctx = it.ctx
+        return self.formulas(it, env, k, ctx.fresh(LabelSort, 'lq'), ctx.fresh(I, 'iq'), ctx.fresh(I, 'jq'))
+
+    def inv_assume(self, it, env, k):
+        l = z3.Const('l!q', LabelSort)
+        i, j = z3.Ints('i!q j!q')
+        return [(nm, z3.ForAll([l, i, j], f)) for nm, f in self.formulas(it, env, k, l, i, j)]
+
+
+Ghostn = [0]
+
+
+class PushOutputs(QSpec):
+    """for output in _outputs: if output not in self._inputs: queue_.append(output)"""
+
+    def __init__(self, c):
+        self.c = c
+
+    def applies(self, it, env, iterable):
+        return isinstance(iterable, CM.LabelList)
+
+    def havoc(self, it, env):
+        self.fresh_stack(it, env)
+
+    def formulas(self, it, env, k, l, i, j):
+        S0 = self.c.S0
+        n, elem = stack_view(it, env['queue_'])
+        ii = z3.Int('ii!po')
+        return [('stack-holds-non-input-gates', z3.Implies(z3.And(i >= 0, i < n), z3.And(S0.dom(elem(i)), S0.typ(elem(i)) != GT['INPUT']))),
+                ('seen-non-input-outputs-are-on-the-stack', z3.Implies(z3.And(j >= 0, j < k, S0.in_cnt(S0.out_elem(j)) == 0),
+                                                                        z3.Exists([ii], z3.And(ii >= 0, ii < n, elem(ii) == S0.out_elem(j)))))]
+
+
+class EvalOuter(QSpec):
+    def __init__(self, c):
+        self.c = c
+        self.base = None
+
+    def _setup(self, env):
+        if self.base is None:
+            am = env['assignment_dict']
+            self.base = (am.dom, am.val)
+
+    def havoc(self, it, env):
+        self._setup(env)
+        self.fresh_stack(it, env)
+        Ghostn[0] += 1
+        d = z3.Function(f'amd!{Ghostn[0]}', LabelSort, B)
+        v = z3.Function(f'amv!{Ghostn[0]}', LabelSort, StateSort)
+        am = env['assignment_dict']
+        am.dom, am.val = (lambda x: d(x)), (lambda x: v(x))
+
+    def formulas(self, it, env, k, l, i, j):
+        self._setup(env)
+        S0, D = self.c.S0, self.c.spec['D']
+        d1, v1 = self.base
+        am = env['assignment_dict']
+        n, elem = stack_view(it, env['queue_'])
+        ii = z3.Int('ii!eo')
+        nonin = lambda x: z3.And(S0.dom(x), S0.typ(x) != GT['INPUT'])
+        return [('computed-values-are-den', z3.Implies(z3.And(am.dom(l), nonin(l)), am.val(l) == theory.state_of_bool(D(l)))),
+                ('initial-keys-kept', z3.Implies(d1(l), z3.And(am.dom(l), am.val(l) == v1(l)))),
+                ('keys-are-initial-or-non-input-gates', z3.Implies(am.dom(l), z3.Or(d1(l), nonin(l)))),
+                ('stack-holds-non-input-gates', z3.Implies(z3.And(i >= 0, i < n), nonin(elem(i)))),
+                ('requested-outputs-evaluated-or-on-the-stack', z3.Implies(z3.And(j >= 0, j < S0.out_n, S0.in_cnt(S0.out_elem(j)) == 0),
+                                                                           z3.Or(am.dom(S0.out_elem(j)), z3.Exists([ii], z3.And(ii >= 0, ii < n, elem(ii) == S0.out_elem(j))))))]
+
+
+class EvalInner(QSpec):
+    """for operand in cur_gate.operands: if operand not in assignment_dict: queue_.append(operand)"""
+
+    def __init__(self, c):
+        self.c = c
+        self.base = None
+
+    def applies(self, it, env, iterable):
+        return isinstance(iterable, CM.OpsSeq) and iterable.concrete_len(it) is None
+
+    def _setup(self, it, env):
+        if self.base is None:
+            n, e = stack_view(it, env['queue_'])
+            self.base = (n, e)
+            self.cur = it.label_term(it.getattr(env['cur_gate'], 'label'))
+
+    def havoc(self, it, env):
+        self._setup(it, env)
+        self.fresh_stack(it, env)
+
+    def formulas(self, it, env, k, l, i, j):
+        self._setup(it, env)
+        S0 = self.c.S0
+        n0, e0 = self.base
+        cur = self.cur
+        am = env['assignment_dict']
+        n, elem = stack_view(it, env['queue_'])
+        return [('stack-only-grows', n >= n0),
+                ('old-part-unchanged', z3.Implies(z3.And(i >= 0, i < n0), elem(i) == e0(i))),
+                ('pushed-are-missing-operands', z3.Implies(z3.And(i >= n0, i < n), z3.And(S0.opc(cur, elem(i)) > 0, z3.Not(am.dom(elem(i)))))),
+                ('nothing-pushed-means-all-seen-operands-available', z3.Implies(z3.And(n == n0, j >= 0, j < k), am.dom(S0.op(cur, j))))]
+
+
+class FinalDefaults:
+    """for _gate in self.gates: assignment_dict.setdefault(_gate, Undefined) — closed form over the key enumeration"""
+
+    def __init__(self, c):
+        self.c = c
+        self.base = None
+
+    def applies(self, it, env, iterable):
+        if isinstance(iterable, CM.GatesMap):
+            iterable.enumeration(it.ctx)
+            return True
+        return False
+
+    def _setup(self, it, env):
+        if self.base is None:
+            am = env['assignment_dict']
+            self.base = (am.dom, am.val)
+            self.pos = self.c.h.obj.fields['_gates'].enumeration(it.ctx)[1]
+
+    def closed(self, k):
+        d0, v0 = self.base
+        S0, pos = self.c.S0, self.pos
+        return (lambda l: z3.Or(d0(l), z3.And(S0.dom(l), pos(l) < k))), (lambda l: z3.If(d0(l), v0(l), ST_U))
+
+    def inv(self, it, env, k):
+        self._setup(it, env)
+        am = env['assignment_dict']
+        d, v = self.closed(k)
+        l = it.ctx.fresh(LabelSort, 'lfd')
+        return [('keys', am.dom(l) == d(l)), ('values', z3.Implies(d(l), am.val(l) == v(l)))]
+
+    def install(self, it, env, k):
+        self._setup(it, env)
+        am = env['assignment_dict']
+        am.dom, am.val = self.closed(k)
+
+
+class EvaluateCircuit(EvaluateFull):
+    qualname, name = 'Circuit.evaluate_circuit', 'evaluate_circuit'
+
+    def setup(self, it, ctx):
+        args, kwargs, st = EvaluateFull.setup(self, it, ctx)
+        h, S0 = st['h'], st['S0']
+        self.h, self.S0, self.spec = h, S0, st['spec']
+        u, g = z3.Consts('u!w5 g!w5', LabelSort)
+        ctx.assume(z3.ForAll([u, g], z3.Implies(z3.And(S0.dom(u), S0.opc(u, g) > 0), S0.rank(g) < S0.rank(u))))      # W5 in count form (view link)
+        it.contracts.pop(CIRC + '::Circuit.top_sort', None)
+        find = lambda env: env['assignment_dict']
+        it.loop_specs.clear()
+        it.loop_specs[(CIRC + '::Circuit.evaluate_circuit', 1)] = InputsLoop(h, find)
+        it.loop_specs[(CIRC + '::Circuit.evaluate_circuit', 2)] = PushOutputs(self)
+        it.loop_specs[(CIRC + '::Circuit.evaluate_circuit', 3)] = EvalOuter(self)
+        it.loop_specs[(CIRC + '::Circuit.evaluate_circuit', 4)] = EvalInner(self)
+        it.loop_specs[(CIRC + '::Circuit.evaluate_circuit', 5)] = FinalDefaults(self)
+        return args, kwargs, st
+
+    def post(self, it, ctx, result, st):
+        it.fold_for = None
+        S0, D = st['S0'], st['spec']['D']
+        if not isinstance(result, AssignMap):
+            yield ('returns-the-assignment-dict', z3.BoolVal(False))
+            return
+        l = ctx.fresh(LabelSort, 'lres')
+        j = ctx.fresh(I, 'jres')
+        o = S0.out_elem(j)
+        yield ('every-gate-has-a-value', z3.Implies(S0.dom(l), result.dom(l)))
+        yield ('every-output-holds-den', z3.Implies(z3.And(j >= 0, j < S0.out_n), z3.And(result.dom(o), result.val(o) == theory.state_of_bool(D(o)))), {'witness': 'den'})
+        yield ('other-gates-hold-den-or-undefined', z3.Implies(S0.dom(l), z3.Or(result.val(l) == theory.state_of_bool(D(l)), result.val(l) == ST_U)))
+        yield ('circuit-unchanged', z3.BoolVal(not [e for e in st['h'].events if e[0] in ('gate-write', 'gate-del')]))
+
+
